@@ -1190,3 +1190,241 @@ func derefBeforeCheck(info *types.Info, g *cfg.CFG, start *cfg.Block, idx int, e
 	}
 	return token.NoPos, ""
 }
+
+// ---- a nil pointer does not become a non-nil interface value ----
+//
+// typedNilVarRule: when a function whose result is a concrete pointer type returns the literal nil on some
+// path ("nothing to report", "not this kind") and the caller assigns that result to a variable of interface
+// type (the util.Message result of the parser, an `error`), the variable holds a typed nil: `v == nil` is
+// false, the caller's fallback or success test goes the wrong way, and the first method call dereferences
+// nil. For every assignment of a module call's pointer result to an interface-typed variable, the callee
+// never returns a bare nil in that position (together with a nil error, where it has one).
+func typedNilVarRule(w *World, r *Report, rule string, inScope func(fi *FuncInfo) bool) {
+	returnsBareNil := func(f *types.Func, idx int) (token.Pos, bool) {
+		fi := w.ByObj[f.Origin()]
+		if fi == nil || fi.Decl.Body == nil {
+			return token.NoPos, false
+		}
+		info := fi.Pkg.TypesInfo
+		sig := f.Type().(*types.Signature)
+		n := sig.Results().Len()
+		hasErr := n > 1 && isErrorType(sig.Results().At(n-1).Type()) && idx != n-1
+		var at token.Pos
+		ast.Inspect(fi.Decl.Body, func(nd ast.Node) bool {
+			switch x := nd.(type) {
+			case *ast.FuncLit:
+				return false
+			case *ast.ReturnStmt:
+				if len(x.Results) != n || at.IsValid() {
+					return true
+				}
+				if tv, ok := info.Types[unparen(x.Results[idx])]; ok && tv.IsNil() {
+					if hasErr {
+						if etv, ok := info.Types[unparen(x.Results[n-1])]; ok && !etv.IsNil() {
+							return true // nil together with an error: the caller looks at the error
+						}
+					}
+					at = x.Pos()
+				}
+			}
+			return true
+		})
+		return at, at.IsValid()
+	}
+	for _, key := range w.sortedFuncKeys() {
+		fi := w.Funcs[key]
+		if fi.Decl.Body == nil || !inScope(fi) || strings.HasSuffix(w.Fset.Position(fi.Decl.Pos()).Filename, "_test.go") {
+			continue
+		}
+		info := fi.Pkg.TypesInfo
+		n := 0
+		ast.Inspect(fi.Decl.Body, func(nd ast.Node) bool {
+			as, ok := nd.(*ast.AssignStmt)
+			if !ok || len(as.Rhs) != 1 {
+				return true
+			}
+			call, ok := unparen(as.Rhs[0]).(*ast.CallExpr)
+			if !ok {
+				return true
+			}
+			f := calleeFunc(info, call)
+			if f == nil || w.ByObj[f.Origin()] == nil {
+				return true
+			}
+			res := f.Type().(*types.Signature).Results()
+			if res.Len() != len(as.Lhs) {
+				return true
+			}
+			for i, l := range as.Lhs {
+				id, ok := unparen(l).(*ast.Ident)
+				if !ok || id.Name == "_" {
+					continue
+				}
+				lt := info.TypeOf(id)
+				if lt == nil {
+					continue
+				}
+				if _, isI := lt.Underlying().(*types.Interface); !isI {
+					continue
+				}
+				if _, isP := res.At(i).Type().Underlying().(*types.Pointer); !isP {
+					continue
+				}
+				n++
+				inst := fmt.Sprintf("%s=%s#%d", id.Name, f.Name(), n)
+				if at, bad := returnsBareNil(f, i); bad {
+					r.Fail(VViolation, rule, fi.Key, inst, w.Pos(as.Pos()), fmt.Sprintf("%s has the interface type %s and is assigned the %s result of %s, which returns a bare nil at %s: the variable then holds a typed nil — it compares unequal to nil, so a fallback or a success test on it goes the wrong way, and the first method call on it dereferences nil", id.Name, types.TypeString(lt, nil), types.TypeString(res.At(i).Type(), func(p *types.Package) string { return p.Name() }), f.Name(), w.Pos(at)))
+				} else {
+					r.OK(rule, fi.Key, inst, w.Pos(as.Pos()), "the callee never returns a bare nil pointer in this position", true)
+				}
+			}
+			return true
+		})
+	}
+}
+
+// ---- a value meant for an outer variable is not lost in a shadowing declaration ----
+//
+// shadowRule: `v, err := f()` inside an if, for, switch or block declares a NEW v when one of the names on
+// the left is new, even if a variable v of the same type already exists in the enclosing function. What was
+// computed then never reaches the outer v: the named result keeps its old value, the decoded message is
+// thrown away, the shifted value is not the one that gets encoded. For every := in an inner scope that
+// re-declares the name of a variable of the same function with an identical (non-error) type, the outer
+// variable must not be read after the inner scope ends (and must not be a named result). Error variables
+// are left to the error rules: shadowing err in `if err := …; err != nil` is the idiom.
+func shadowRule(w *World, r *Report, rule string, inScope func(fi *FuncInfo) bool) {
+	nFuncs, nDefs := 0, 0
+	defer func() {
+		r.OK(rule, "inventory", "", "-", fmt.Sprintf("%d short variable declarations in %d functions examined", nDefs, nFuncs), true)
+	}()
+	for _, key := range w.sortedFuncKeys() {
+		fi := w.Funcs[key]
+		if fi.Decl.Body == nil || !inScope(fi) || strings.HasSuffix(w.Fset.Position(fi.Decl.Pos()).Filename, "_test.go") {
+			continue
+		}
+		info := fi.Pkg.TypesInfo
+		named := map[types.Object]bool{}
+		if fi.Decl.Type.Results != nil {
+			for _, f := range fi.Decl.Type.Results.List {
+				for _, nm := range f.Names {
+					named[info.Defs[nm]] = true
+				}
+			}
+		}
+		n := 0
+		nFuncs++
+		ast.Inspect(fi.Decl.Body, func(nd ast.Node) bool {
+			as, ok := nd.(*ast.AssignStmt)
+			if !ok || as.Tok != token.DEFINE {
+				return true
+			}
+			nDefs++
+			for _, l := range as.Lhs {
+				id, ok := l.(*ast.Ident)
+				if !ok || id.Name == "_" {
+					continue
+				}
+				v, _ := info.Defs[id].(*types.Var)
+				if v == nil || v.Parent() == nil || v.Parent().Parent() == nil {
+					continue
+				}
+				_, o := v.Parent().Parent().LookupParent(id.Name, id.Pos())
+				outer, _ := o.(*types.Var)
+				if outer == nil || outer == v || outer.Pos() < fi.Decl.Pos() || outer.Pos() > fi.Decl.End() {
+					continue
+				}
+				// same type — or, for a named result, any type that could have been assigned to it (a concrete
+				// message where the result is the message interface)
+				if isErrorType(v.Type()) || isErrorType(outer.Type()) {
+					continue
+				}
+				if !types.Identical(v.Type(), outer.Type()) && !(named[outer] && types.AssignableTo(v.Type(), outer.Type())) {
+					continue
+				}
+				n++
+				inst := fmt.Sprintf("%s#%d", id.Name, n)
+				end := v.Parent().End()
+				usedAfter := token.NoPos
+				ast.Inspect(fi.Decl.Body, func(m ast.Node) bool {
+					if u, ok := m.(*ast.Ident); ok && u.Pos() > end && info.Uses[u] == outer && !usedAfter.IsValid() {
+						usedAfter = u.Pos()
+					}
+					return true
+				})
+				switch {
+				case named[outer]:
+					r.Fail(VViolation, rule, fi.Key, inst, w.Pos(id.Pos()), fmt.Sprintf("%s := declares a new variable that shadows the function's named result %s: what is computed here is thrown away when the block ends, and the function returns the result's earlier value", id.Name, id.Name))
+				case usedAfter.IsValid():
+					r.Fail(VViolation, rule, fi.Key, inst, w.Pos(id.Pos()), fmt.Sprintf("%s := declares a new variable that shadows the %s declared at %s, which is read again at %s after this block: the value computed here does not reach it", id.Name, id.Name, w.Pos(outer.Pos()), w.Pos(usedAfter)))
+				default:
+					r.OK(rule, fi.Key, inst, w.Pos(id.Pos()), "the shadowed variable is not read after the inner scope", true)
+				}
+			}
+			return true
+		})
+	}
+}
+
+func init() {
+	extraDumps["shadows"] = func(w *World, args []string) {
+		r := NewReport("C05", "quick")
+		r.Rule("shadow", "", 0)
+		shadowRule(w, r, "shadow", func(*FuncInfo) bool { return true })
+		for _, o := range r.Obs {
+			fmt.Printf("%s %s/%s at %s\n", o.Verdict, o.Subject, o.Instance, o.Pos)
+		}
+		fmt.Println("shadow sites:", len(r.Obs))
+	}
+}
+
+// ---- a shift does not push every bit out of its operand's type ----
+//
+// shiftWidthRule: Go evaluates `a & m << 8` as `(a & m) << 8` in the type of a; when a is a byte the shift
+// by 8 (or more) happens in uint8 BEFORE any widening and the result is always 0 — the high bits of a
+// length or bit count are silently lost. For every shift with a constant count: the count is smaller than
+// the width of the (typed, non-constant) left operand.
+func shiftWidthRule(w *World, r *Report, rule string, inScope func(fi *FuncInfo) bool) {
+	nShifts := 0
+	for _, key := range w.sortedFuncKeys() {
+		fi := w.Funcs[key]
+		if fi.Decl.Body == nil || !inScope(fi) || strings.HasSuffix(w.Fset.Position(fi.Decl.Pos()).Filename, "_test.go") {
+			continue
+		}
+		info := fi.Pkg.TypesInfo
+		n := 0
+		ast.Inspect(fi.Decl.Body, func(nd ast.Node) bool {
+			var x, y ast.Expr
+			var op token.Token
+			switch b := nd.(type) {
+			case *ast.BinaryExpr:
+				x, y, op = b.X, b.Y, b.Op
+			case *ast.AssignStmt:
+				if (b.Tok == token.SHL_ASSIGN || b.Tok == token.SHR_ASSIGN) && len(b.Lhs) == 1 && len(b.Rhs) == 1 {
+					x, y, op = b.Lhs[0], b.Rhs[0], token.SHL
+				}
+			}
+			if x == nil || op != token.SHL && op != token.SHR {
+				return true
+			}
+			tv, ok := info.Types[x]
+			if !ok || tv.Value != nil { // a constant operand is evaluated exactly
+				return true
+			}
+			k, isC := constIntOf(info, y)
+			if !isC {
+				return true
+			}
+			bits, _ := intBits(tv.Type)
+			if bits <= 0 {
+				return true
+			}
+			nShifts++
+			if k >= int64(bits) {
+				n++
+				r.Fail(VViolation, rule, fi.Key, fmt.Sprintf("%s#%d", types.ExprString(x), n), w.Pos(nd.Pos()), fmt.Sprintf("%s has the %d-bit type %s and is shifted by %d: every bit leaves the operand before any conversion widens it, the result is always 0 (Go applies << and & left to right in the operand's own type)", types.ExprString(x), bits, types.TypeString(tv.Type, nil), k))
+			}
+			return true
+		})
+	}
+	r.OK(rule, "inventory", "", "-", fmt.Sprintf("%d shifts by a constant examined: each count is below the width of its operand's type", nShifts), true)
+}
